@@ -3370,3 +3370,116 @@ def rename_locals(fi, ren):
     fi.node = ast.fix_missing_locations(_R().visit(copy.deepcopy(fi.node)))
     return fi
 
+
+
+def empty_selection_rule(prog, run, rule, quals):
+    """`if not m.any(): .. x[m] ..` (also `np.any(m)`, `m.sum() == 0`, `not m.max()`): a selection by the mask m that is carried out only
+    when m accepts NOTHING selects nothing - and whenever m accepts at least one element the ones it rejects are kept.  The guard of a
+    filter that removes what m rejects is `not m.all()`."""
+    from .program import rel
+    n = 0
+
+    def none_accepted(test):
+        """the mask name when the test is true exactly if no element of the mask is set"""
+        t = test
+        if isinstance(t, ast.UnaryOp) and isinstance(t.op, ast.Not):
+            c = t.operand
+            if isinstance(c, ast.Call) and isinstance(c.func, ast.Attribute) and c.func.attr in ("any", "max") and isinstance(c.func.value, ast.Name) and not c.args:
+                return c.func.value.id
+            if isinstance(c, ast.Call) and src(c.func).split(".")[-1] == "any" and len(c.args) == 1 and isinstance(c.args[0], ast.Name):
+                return c.args[0].id
+        if isinstance(t, ast.Compare) and len(t.ops) == 1 and isinstance(t.ops[0], ast.Eq) and isinstance(t.comparators[0], ast.Constant) and t.comparators[0].value == 0:
+            c = t.left
+            if isinstance(c, ast.Call) and isinstance(c.func, ast.Attribute) and c.func.attr in ("sum", "count_nonzero") and isinstance(c.func.value, ast.Name) and not c.args:
+                return c.func.value.id
+            if isinstance(c, ast.Call) and src(c.func).split(".")[-1] in ("sum", "count_nonzero") and len(c.args) == 1 and isinstance(c.args[0], ast.Name):
+                return c.args[0].id
+        return None
+    for q in quals:
+        fi = prog.functions.get(q)
+        if fi is None:
+            continue
+        f = rel(prog.mods[fi.mod].path)
+        for ifn in ast.walk(fi.node):
+            if not isinstance(ifn, ast.If):
+                continue
+            m = none_accepted(ifn.test)
+            if m is None:
+                continue
+            for st in ifn.body:
+                for sub in ast.walk(st):
+                    if isinstance(sub, ast.Subscript) and isinstance(sub.ctx, ast.Load) and isinstance(sub.slice, ast.Name) and sub.slice.id == m:
+                        n += 1
+                        run.ob(rule, fi.qual, f"a filter by `{m}` is applied whenever `{m}` rejects something", False,
+                               f"`{src(sub, 40)}` under `{src(ifn.test, 40)}`: the selection is made only when `{m}` accepts nothing (it is then empty); when some elements pass and "
+                               f"others do not, the rejected ones are kept", witness=f"{src(ifn.test, 30)}:{src(sub, 30)}", file=f, node=sub)
+                        break
+                else:
+                    continue
+                break
+    if not n:
+        run.ob(rule, quals[0] if quals else "-", "mask selections guarded by the emptiness of their mask", True, "no selection by a mask is guarded by that mask accepting nothing")
+
+
+def falsy_default_rule(prog, run, rule, roots, attr_names=("hc", "sc")):
+    """`d.get(k) or default` / `d[k] or default` on a dictionary of user settings (run_params.hc / .sc handed down from run()): a setting
+    of 0, 0.0 or False - switching a criterion off - counts as "not given" and is replaced by the default"""
+    from .program import rel
+    n = 0
+    seen = set()
+
+    def visit(g, names, depth):
+        nonlocal n
+        key = (g.qual, tuple(sorted(names)))
+        if key in seen or depth > 3:
+            return
+        seen.add(key)
+        f = rel(prog.mods[g.mod].path)
+        # local aliases of the settings dictionary
+        names = set(names)
+        for a in ast.walk(g.node):
+            if isinstance(a, ast.Assign) and len(a.targets) == 1 and isinstance(a.targets[0], ast.Name):
+                v = a.value
+                if (isinstance(v, ast.Attribute) and v.attr in attr_names) or (isinstance(v, ast.Name) and v.id in names) or \
+                        (isinstance(v, ast.Call) and src(v.func) == "dict" and len(v.args) == 1 and isinstance(v.args[0], ast.Name) and v.args[0].id in names):
+                    names.add(a.targets[0].id)
+
+        def is_setting(e):
+            while isinstance(e, ast.Call) and isinstance(e.func, ast.Attribute) and e.func.attr == "get":
+                e = e.func.value
+                return (isinstance(e, ast.Name) and e.id in names) or (isinstance(e, ast.Attribute) and e.attr in attr_names)
+            if isinstance(e, ast.Subscript):
+                b = e.value
+                return (isinstance(b, ast.Name) and b.id in names) or (isinstance(b, ast.Attribute) and b.attr in attr_names)
+            return False
+        for b in ast.walk(g.node):
+            if isinstance(b, ast.BoolOp) and isinstance(b.op, ast.Or) and len(b.values) >= 2 and is_setting(b.values[0]):
+                n += 1
+                run.ob(rule, g.qual, "a setting of 0 / False is a setting", False,
+                       f"`{src(b, 60)}`: a criterion set to 0, 0.0 or False (switched off / neutralised) is replaced by `{src(b.values[-1], 20)}`",
+                       witness=src(b, 50), file=f, node=b)
+        for c in ast.walk(g.node):
+            if not isinstance(c, ast.Call):
+                continue
+            hand = [a for a in list(c.args) + [k.value for k in c.keywords] if (isinstance(a, ast.Name) and a.id in names) or (isinstance(a, ast.Attribute) and a.attr in attr_names)]
+            if not hand:
+                continue
+            try:
+                r = prog.resolve_call(g, c)
+            except Exception:
+                r = None
+            if isinstance(getattr(r, "node", None), ast.FunctionDef) and r.node is not g.node:
+                try:
+                    m_, errs = bind_args(r.node, c, bound=(r.cls is not None and isinstance(c.func, ast.Attribute)
+                                                           and not any(src(d).split(".")[-1] == "staticmethod" for d in r.node.decorator_list)))
+                except Exception:
+                    continue
+                sub = {p_ for p_, a_ in m_.items() if isinstance(a_, ast.AST) and any(a_ is h for h in hand)}
+                if sub:
+                    visit(r, sub, depth + 1)
+    for q in roots:
+        g = prog.functions.get(q)
+        if g is not None:
+            visit(g, set(), 0)
+    if not n:
+        run.ob(rule, roots[0] if roots else "-", "`setting or default` on the criteria dictionaries", True, "no `<setting> or <default>` on a criteria dictionary")
